@@ -242,14 +242,14 @@ func freshScalar(t types.Type, prefix string, facts *[]*Term) Value {
 }
 
 func cellEqual(a, b Cell) bool {
-	if a == b {
-		return true
-	}
 	switch x := a.(type) {
 	case *ArrCell:
 		y, ok := b.(*ArrCell)
 		if !ok || len(x.Elems) != len(y.Elems) {
 			return false
+		}
+		if x == y {
+			return true
 		}
 		for i := range x.Elems {
 			if !cellEqual(x.Elems[i], y.Elems[i]) {
@@ -261,6 +261,9 @@ func cellEqual(a, b Cell) bool {
 		y, ok := b.(*StructCell)
 		if !ok || len(x.Fields) != len(y.Fields) {
 			return false
+		}
+		if x == y {
+			return true
 		}
 		for i := range x.Fields {
 			if !cellEqual(x.Fields[i], y.Fields[i]) {
@@ -277,6 +280,26 @@ func cellEqual(a, b Cell) bool {
 	case PtrV:
 		y, ok := b.(PtrV)
 		return ok && ptrEqual(x, y)
+	case IfaceV:
+		y, ok := b.(IfaceV)
+		return ok && x.Dyn == y.Dyn && x.Sym == y.Sym && cellEqual(x.V, y.V)
+	case SliceV:
+		y, ok := b.(SliceV)
+		return ok && x.R == y.R && x.Off == y.Off && x.Len == y.Len
+	case ClosureV:
+		y, ok := b.(ClosureV)
+		return ok && x.Fn == y.Fn
+	case *LazySlices:
+		y, ok := b.(*LazySlices)
+		return ok && x == y
+	case StringV:
+		y, ok := b.(StringV)
+		return ok && x.Const == y.Const && x.Arr == y.Arr && x.Len == y.Len
+	case HashV:
+		y, ok := b.(HashV)
+		return ok && x.Cell == y.Cell
+	case OpaqueV, NilV, nil:
+		return true
 	}
 	return false
 }
